@@ -74,8 +74,8 @@ pub fn run_with_cuts(scratch: &std::path::Path, history: &[Ev], cuts: &[Cut]) ->
     let hist_json = serde_json::to_value(history).unwrap();
     let cuts_json = serde_json::to_value(cuts).unwrap();
     let res = rt.block_on(async {
-        let ctl = Ctl::install();
         let mut w = World::new(dir.clone(), 3, false).await;
+        let ctl = w.ctl.clone();
         let mut chk = Checker::new();
         let mut log = vec![];
         let mut violations = vec![];
